@@ -44,6 +44,37 @@ Qed.
 Lemma forallb_impl {A} (p q : A -> bool) l : (forall x, p x = true -> q x = true) -> forallb p l = true -> forallb q l = true.
 Proof. intros I. induction l as [|x l IH]; simpl; [trivial|]. intros H. apply andb_true_iff in H. destruct H as [X Y]. rewrite (I x X), (IH Y). reflexivity. Qed.
 
+(* ------------------------------------------------------------------ the capitalisation check on i-free texts *)
+
+Definition is_fin (f : fdesc) : Prop := match f with FFin _ _ _ => True | _ => False end.
+
+Lemma cap_ok_fin_noi a f : is_fin f -> has_i a = false -> cap_ok a f = true.
+Proof.
+  destruct f; [|contradiction|contradiction]. intros _ H. unfold cap_ok, inf_ok. rewrite H.
+  destruct (overflows mant exp10); reflexivity.
+Qed.
+
+Lemma has_i_incl p s : (forall c, In c p -> In c s) -> has_i s = false -> has_i p = false.
+Proof.
+  intros I H. unfold has_i in *. apply orb_false_iff in H. destruct H as [H H3]. apply orb_false_iff in H. destruct H as [H1 H2].
+  assert (G : forall k, mem k s = false -> mem k p = false).
+  { intros k Hk. destruct (mem k p) eqn:E; [|reflexivity]. apply mem_In in E. apply I in E. apply mem_In in E. congruence. }
+  rewrite (G _ H1), (G _ H2), (G _ H3). reflexivity.
+Qed.
+
+Lemma dropwhile_incl (q : N -> bool) s : forall c, In c (dropwhile q s) -> In c s.
+Proof. induction s as [|x r IH]; intros c H; [exact H|]. simpl in H. destruct (q x); [right; apply IH; exact H | exact H]. Qed.
+
+Lemma partition_plus_incl : forall s a b, partition_plus s = (a, b) -> (forall c, In c a -> In c s) /\ (forall c, In c b -> In c s).
+Proof.
+  induction s as [|x r IH]; intros a b H; simpl in H.
+  - inversion H; subst. split; intros c X; exact X.
+  - destruct (is_pm x).
+    + inversion H; subst. split; intros c X; [contradiction | right; exact X].
+    + destruct (partition_plus r) as [a' b'] eqn:E. inversion H; subst. destruct (IH a' b eq_refl) as [A B].
+      split; intros c X; [destruct X as [X|X]; [left; exact X | right; apply A; exact X] | right; apply B; exact X].
+Qed.
+
 Section Proofs.
 Variable U : uni.
 
